@@ -92,8 +92,12 @@ class StructTask:
 
     check(loader) -> list of (name, ok: bool, detail)."""
 
-    def __init__(self, name, check, note=""):
-        self.name, self.check, self.note = name, check, note
+    def __init__(self, name, check, note="", textual=False):
+        # textual: the expectation is a literal shape of the source (an expression spelled a certain way, statements in a certain order).
+        # A mismatch there means "the source no longer has the shape this argument was made for" - it is reported as UNDECIDED and directs
+        # the native evaluation, it is not a violation by itself (a harmless rewrite would trip it).  Non-textual structural obligations
+        # (registries and dispatch tables by key, frame / alias analysis, module-level state) are decided as they stand.
+        self.name, self.check, self.note, self.textual = name, check, note, textual
 
 
 # ---------------------------------------------------------------- symbolic input builders
